@@ -29,6 +29,9 @@ import tempfile
 import time
 
 HERE = os.path.dirname(os.path.dirname(os.path.abspath(__file__)))
+sys.path.insert(0, os.path.join(HERE, "tools"))
+import _snapshot  # noqa: E402
+
 PKG = "metomi/isodatetime"
 FILES = ["data.py", "parsers.py", "dumpers.py", "timezone.py", "datetimeoper.py",
          "main.py", "parser_spec.py"]
@@ -176,6 +179,9 @@ def main():
     ap.add_argument("--seed", type=int, default=1)
     ap.add_argument("--files", nargs="*", default=FILES)
     ap.add_argument("--out", default=os.path.join(HERE, "mutants", "RESULTS.jsonl"))
+    ap.add_argument("--shift", nargs="*", default=[],
+                    help="file:after_line:delta - the source gained delta lines"
+                    " after after_line since SUITE.jsonl was computed")
     ap.add_argument("--survivors", help="SUITE.jsonl of mutation_prefilter.py:"
                     " run the checks on its suite survivors only")
     args = ap.parse_args()
@@ -211,12 +217,18 @@ def main():
             r = json.loads(line)
             key = (r["file"], tuple(r["site"]))
             if r["status"] == "survives-suite" and key not in done:
-                chosen.append((r["file"], tuple(r["site"]), 1))
+                site = list(r["site"])
+                for sh in args.shift:
+                    f_, after, delta = sh.split(":")
+                    if f_ == r["file"] and site[1] > int(after):
+                        site[1] += int(delta)
+                chosen.append((r["file"], tuple(site), 1))
                 done.add(key)
         rng.shuffle(chosen)
         chosen = chosen[:args.n]
         print("%d suite survivors to run" % len(chosen), flush=True)
     os.makedirs(os.path.dirname(args.out), exist_ok=True)
+    snap = _snapshot.make()
     for k, (fn, site, _) in enumerate(chosen):
         wt = tempfile.mkdtemp(prefix="vmut.")
         os.rmdir(wt)
@@ -254,8 +266,8 @@ def main():
                        VERIF_SCALE=os.environ.get("VERIF_SCALE", "0.35"))
             killed = None
             for pid in ORDER:
-                r = run([os.path.join(HERE, "run_check.py"), pid, "--tier",
-                         "quick"], env=env, cwd=HERE, timeout=1200)
+                r = run([os.path.join(snap, "run_check.py"), pid, "--tier",
+                         "quick"], env=env, cwd=snap, timeout=1200)
                 if r.returncode == 124:
                     killed = pid
                     rec["message"] = "check did not finish within 20 min (hang)"
@@ -276,13 +288,14 @@ def main():
         finally:
             run(["git", "-C", "/repo", "worktree", "remove", "--force", wt])
             shutil.rmtree(wt, ignore_errors=True)
-            shutil.rmtree(os.path.join(HERE, "replays", "found"),
+            shutil.rmtree(os.path.join(snap, "replays", "found"),
                           ignore_errors=True)
             with open(args.out, "a") as f:
                 f.write(json.dumps(rec) + "\n")
             print("%3d %-16s %-14s L%-5d %-40s %s" % (
                 k, rec.get("status"), fn, site[1], rec.get("line", "")[:40],
                 rec.get("message", "")[:100]), flush=True)
+    _snapshot.remove(snap)
     return 0
 
 
